@@ -1,4 +1,4 @@
-CONSTANTS N = 8  NOrig = 5  NLoc = 1  MaxLevel = 999  Typed = TRUE  MaxSet = 3  NBlk = 2  BlkGrid = FALSE  NGrp = 0  Rx = FALSE  NAsm = 0  Deviant = TRUE  WithOwned = FALSE
+CONSTANTS N = 16  NOrig = 8  NLoc = 3  MaxLevel = 999  Typed = FALSE  MaxSet = 0  NBlk = 0  BlkGrid = FALSE  NGrp = 0  Rx = TRUE  NAsm = 2  Deviant = TRUE  WithOwned = FALSE
 SPECIFICATION TSpec
 CONSTRAINT Progress
 POSTCONDITION Report
